@@ -960,4 +960,33 @@ def mon_c18(cfg, steps):
     return out
 
 
-MONITORS = {"C04": mon_c04, "C15": mon_c15, "C03": mon_c03, "C08": mon_c08, "C10": mon_c10, "C11": mon_c11, "C12": mon_c12, "C05": mon_c05, "C06": mon_c06, "C17": mon_c17, "C13": mon_c13, "C14": mon_c14, "C09": mon_c09, "C07": mon_c07, "C18": mon_c18}
+
+# ---------------- C20 ----------------
+def mon_c20(cfg, steps):
+    """on the bindings' own output: canonical bytes of a typed value decode and re-encode to themselves; packing into Any
+    uses '/' + the fully-qualified name, unpacking returns the value and refuses other URLs"""
+    out = []
+    for s in steps:
+        t = s.optoks
+        if not s.lines:
+            continue
+        o = s.lines[0]
+        if t[0] == "prt":
+            if o[1] != "ok" or len(o) < 3 or o[2] != t[2]:
+                out.append({"step": s.idx, "what": "PROTO-ROUNDTRIP: %s does not decode and re-encode its canonical bytes (got %s)" % (t[1], " ".join(o[1:])[:120])})
+        elif t[0] == "pany":
+            kv = dict(x.split("=", 1) for x in o[1:] if "=" in x)
+            if not kv:
+                out.append({"step": s.idx, "what": "ANY: %s could not be packed (%s)" % (t[1], " ".join(o[1:])[:80])}); continue
+            url = unhex(kv.get("url", "x")).decode("latin1")
+            if url != "/" + t[2]:
+                out.append({"step": s.idx, "what": "TYPE-URL: %s packs with type URL '%s', canonical is '/%s'" % (t[1], url, t[2])})
+            if kv.get("value") != t[3]:
+                out.append({"step": s.idx, "what": "ANY: %s packs a different value" % t[1]})
+            if not (len(o) >= 5 and o[3] == "back=ok" and o[4] == t[3]):
+                out.append({"step": s.idx, "what": "ANY: %s does not unpack to the packed value" % t[1]})
+            if kv.get("wrong") != "rejected":
+                out.append({"step": s.idx, "what": "ANY: %s unpacks an Any with a mismatched type URL" % t[1]})
+    return out
+
+MONITORS = {"C20": mon_c20, "C04": mon_c04, "C15": mon_c15, "C03": mon_c03, "C08": mon_c08, "C10": mon_c10, "C11": mon_c11, "C12": mon_c12, "C05": mon_c05, "C06": mon_c06, "C17": mon_c17, "C13": mon_c13, "C14": mon_c14, "C09": mon_c09, "C07": mon_c07, "C18": mon_c18}
